@@ -34,7 +34,7 @@ NOT_COVERED = [
     "commuting matrices is associative/commutative (cited) and says nothing about float rounding",
     "mat_power's functional contract (result = M^p) is proved for symbolic p on 1x1 matrices; for n x n only its padding contract",
     "the eigh route's residual-to-accuracy implication and its exact zeros on padding (depend on LAPACK's output for a block-diagonal input)",
-    "LOBPCG deflation (lobpcg_topk_precondition > 0 has no contract); lambda_max >= power-iteration estimate (cited lemma); float32 compute dtype effects",
+    "LOBPCG deflation (lobpcg_topk_precondition > 0 has no contract); that a Rayleigh quotient of a unit vector is <= lambda_max (cited lemma; the estimate IS such a quotient: tasks power_iteration *); float32 compute dtype effects",
 ]
 
 
@@ -260,6 +260,83 @@ def t_residual_algebra(ctx, it):
   ctx.oblige(f"{Q}.P3.retry counter", sc(out[0]) == retry + 1)
 
 
+PI = "power_iteration"
+
+
+def t_pi_body(ctx, it):
+  """power_iteration._iter_body: the new eigenvalue estimate is the Rayleigh quotient u' A u of the NORMALISED
+  incoming vector u = v / |v| (structure of the two contractions, checked at Skolem indices)."""
+  m = it.load_module(DS)
+  n = spec.fresh_int("n", lo=1)
+  A = T.opaque("A", (n, n))
+  tol = spec.fresh_real("error_tolerance", lo=0)
+  body = it.make_nested(DS, PI + ".<locals>._iter_body", dict(matrix=A, precision=None, error_tolerance=tol))
+  v = T.opaque("v", (n,))
+  s_old = spec.fresh_real("s")
+  i0 = spec.fresh_int("i", lo=0)
+  n_con = len(ctx.ghost.setdefault("contractions", []))
+  n_red = len(ctx.ghost.setdefault("reduce_calls", []))
+  out = body((T.asarray(i0), v, T.asarray(s_old), T.opaque("s_v", (n,)), T.asarray(True)))
+  cons = ctx.ghost["contractions"][n_con:]
+  norms = [r for r in ctx.ghost["reduce_calls"][n_red:] if r.kind == "norm"]
+  ctx.require(f"{PI}._iter_body.structure: one norm, two contractions", len(norms) == 1 and len(cons) == 2)
+  k = spec.fresh_int("k")
+  j = spec.fresh_int("j")
+  ctx.assume(sym.sand(k >= 0, k < n, j >= 0, j < n))
+  nv = norms[0].value(())
+  ctx.oblige(f"{PI}._iter_body.the norm ranges over the incoming vector", norms[0].x.at((k,)) == v.at((k,)))
+  u = lambda a: v.at((a,)) / nv
+  c1, c2 = cons
+  ctx.oblige(f"{PI}._iter_body.s_v = A u with u = v/|v| (term of the first contraction)", c1.term_fn((k,), (j,)) == A.at((k, j)) * u(j))
+  ctx.oblige(f"{PI}._iter_body.s_new = u . (A u) (term of the second contraction)", c2.term_fn((), (k,)) == u(k) * c1.value((k,)))
+  ctx.oblige(f"{PI}._iter_body.post: the new estimate IS that Rayleigh quotient; the next vector is A u; counter + 1",
+             sym.sand(out[2].item() == c2.value(()), out[1].at((k,)) == c1.value((k,)), out[0].item() == i0 + 1))
+  ctx.oblige(f"{PI}._iter_body.post: continue iff the estimate moved by more than the tolerance",
+             T.OPS.truth(out[4].item()) == (abs(c2.value(()) - s_old) > tol))
+
+
+def mk_pi_result(padded):
+  """power_iteration returns the estimate held by the loop state, UNCHANGED (0 if no iteration ran): with the cited
+  Rayleigh bound (u' A u <= lambda_max for unit u, symmetric A) the estimate never exceeds the largest eigenvalue."""
+
+  def t(ctx, it):
+    m = it.load_module(DS)
+    n = spec.fresh_int("n", lo=1)
+    A = T.opaque("A", (n, n))
+    S = spec.fresh_real("s_final")
+    fin = {}
+
+    def havoc(env, k):
+      st = (T.asarray(spec.fresh_int("i_f", lo=0)), T.opaque("v_f", (n,)), T.asarray(S), T.opaque("sv_f", (n,)), T.asarray(spec.fresh_bool("run")))
+      fin["state"] = st
+      env["state"] = st
+
+    entry = {}
+
+    def inv(env, k):
+      entry.setdefault("init", env["state"])
+      return True
+
+    it.loop_contracts[("lax.while_loop", PI + ".<locals>._iter_body")] = I.LoopContract(inv, havoc, "power_iteration.loop")
+    ps = None
+    if padded:
+      psv = spec.fresh_int("padding_start", lo=0)
+      ctx.assume(psv <= n)
+      ps = T.asarray(psv)
+    v_out, s_out = m.power_iteration(A, padding_start=ps)
+    init = entry["init"]
+    ctx.oblige(f"{PI}.post: the loop starts from estimate 0 (<= lambda_max of a PSD matrix) and counter 0",
+               sym.sand(init[2].item() == 0, init[0].item() == 0))
+    sv = s_out.item() if isinstance(s_out, T.Tensor) else s_out
+    ctx.oblige(f"{PI}.post: the returned eigenvalue estimate is the loop's Rayleigh quotient, unchanged", sv == S)
+    if padded:
+      k = spec.fresh_int("k0")
+      ctx.assume(sym.sand(k >= 0, k < n))
+      ctx.oblige(f"{PI}.post: the start vector is zero on padding", sym.implies(k >= psv, init[1].at((k,)) == 0))
+
+  return t
+
+
 def install_newton_invariants(ctx, it, n, ps):
 
   def havoc_inner(env, k):
@@ -443,7 +520,9 @@ def mk_eigh(rel_eps, padded):
 
 def tasks(tier):
   ts = [Task("mat_power", t_mat_power), Task("mat_power value", t_mat_power_value), Task("newton retry body", t_outer_body),
-        Task("newton residual algebra (honest error)", t_residual_algebra)]
+        Task("newton residual algebra (honest error)", t_residual_algebra),
+        Task("power_iteration body", t_pi_body), Task("power_iteration result[padded]", mk_pi_result(True)),
+        Task("power_iteration result[unpadded]", mk_pi_result(False))]
   for rel in (True, False):
     for pad in (True, False):
       ts.append(Task(f"newton[relative_eps={rel},padded={pad}]", mk_newton(rel, pad)))
